@@ -37,17 +37,21 @@ structure Ev where
   seen : Int
 deriving Repr
 
-structure M where
-  s : State
+/-- a model state that carries the proof that it is reachable — unless `sp > 0` spurious
+wake-ups (which are not model steps) were replayed on the way -/
+abbrev RSt (n sp : Nat) := {s : State // sp = 0 → Reachable n s}
+
+structure M (n : Nat) where
+  /-- spurious wake-ups replayed so far -/
+  spurious : Nat := 0
+  s : RSt n spurious
   /-- the thread inside `lock_root .. unlock_root` -/
   wtid : Option Nat := none
-  spurious : Nat := 0
   wlocks : Nat := 0
   waits : Nat := 0
   rlocks : Nat := 0
   slow : Nat := 0
   wakes : Nat := 0
-deriving Repr
 
 def wpcName : WPc → String
   | .idle => "idle" | .tryFast => "tryFast" | .load => "load" | .decide st => s!"decide({st})"
@@ -64,14 +68,14 @@ def kName : K → String
   | .fa => "fetch_add" | .wld => "waiter.load" | .wsw => "waiter.swap" | .park => "park" | .unpark => "unpark"
 
 /-- a writer step that must be enabled -/
-def wStep (s : State) : Except String State :=
-  match stepWriter s with
-  | some s' => .ok s'
-  | none => .error s!"the model's writer is blocked at {wpcName s.wpc}"
+def wStep {n sp : Nat} (s : RSt n sp) : Except String (RSt n sp) :=
+  match hs : stepWriter s.1 with
+  | some s' => .ok ⟨s', fun h => .step .writer false (s.2 h) hs⟩
+  | none => .error s!"the model's writer is blocked at {wpcName s.1.wpc}"
 
-def rStep (s : State) (i : Nat) (more : Bool) : Except String State :=
-  match stepReader s i more with
-  | some s' => .ok s'
+def rStep {n sp : Nat} (s : RSt n sp) (i : Nat) (more : Bool) : Except String (RSt n sp) :=
+  match hs : stepReader s.1 i more with
+  | some s' => .ok ⟨s', fun h => .step (.reader i) more (s.2 h) hs⟩
   | none => .error s!"thread {i} is not a reader of the model"
 
 def seenOk (e : Ev) (s : State) : Except String Unit :=
@@ -79,93 +83,96 @@ def seenOk (e : Ev) (s : State) : Except String Unit :=
   else .error s!"thread {e.tid}'s {kName e.k} finds lock_state = {e.seen}, the model's word is {s.lockState}"
 
 /-- an access of the thread that is (or becomes) the model's writer -/
-def writerEv (m : M) (e : Ev) : Except String M := do
+def writerEv {n : Nat} (m : M n) (e : Ev) : Except String (M n) := do
   -- `decide` touches no shared cell
-  let s ← match m.s.wpc with
+  let s ← match m.s.1.wpc with
     | .decide _ => wStep m.s
     | _ => pure m.s
-  match s.wpc, e.k with
+  match s.1.wpc, e.k with
   | .idle, .cas =>
     if !(e.a == 0 && e.b == WRITER) then throw s!"lock_root's first CAS is {e.a} -> {e.b}, not 0 -> WRITER"
-    seenOk e s
+    seenOk e s.1
     let s1 ← wStep s
     let s2 ← wStep s1
-    return { m with s := s2, wtid := some e.tid, wlocks := m.wlocks + (if s2.wpc == .hold then 1 else 0) }
+    return { m with s := s2, wtid := some e.tid, wlocks := m.wlocks + (if s2.1.wpc == .hold then 1 else 0) }
   | .load, .ld =>
-    seenOk e s
+    seenOk e s.1
     return { m with s := ← wStep s }
   | .casWriter st, .cas =>
     if !(e.a == st && e.b == WRITER) then throw s!"contended_lock's CAS is {e.a} -> {e.b}, the model's is {st} -> WRITER"
-    seenOk e s
+    seenOk e s.1
     let s' ← wStep s
-    return { m with s := s', wlocks := m.wlocks + (if s'.wpc == .hold || s'.wpc == .swapOut then 1 else 0) }
+    return { m with s := s', wlocks := m.wlocks + (if s'.1.wpc == .hold || s'.1.wpc == .swapOut then 1 else 0) }
   | .casWaiter st, .cas =>
     if !(e.a == st && e.b == st + WAITER) then throw s!"contended_lock's CAS is {e.a} -> {e.b}, the model's is {st} -> {st + WAITER}"
-    seenOk e s
+    seenOk e s.1
     let s' ← wStep s
-    return { m with s := s', waits := m.waits + (if s'.wpc == .publish then 1 else 0) }
+    return { m with s := s', waits := m.waits + (if s'.1.wpc == .publish then 1 else 0) }
   | .swapOut, .wsw =>
     if e.a != 0 then throw "the writer that acquired the lock after waiting swaps a non-null handle into `waiter`"
     return { m with s := ← wStep s }
   | .publish, .wsw =>
     if e.a == 0 then throw "the waiting writer swaps null into `waiter` instead of its handle"
-    if (e.seen != 0) != s.waiterSet then throw s!"`waiter` holds {e.seen} when the waiting writer publishes its handle, the model has waiterSet = {s.waiterSet}"
+    if (e.seen != 0) != s.1.waiterSet then throw s!"`waiter` holds {e.seen} when the waiting writer publishes its handle, the model has waiterSet = {s.1.waiterSet}"
     return { m with s := ← wStep s }
   | .park, .park =>
-    if s.token then return { m with s := ← wStep s }
-    else return { m with s := { s with wpc := .load }, spurious := m.spurious + 1 }
+    if s.1.token then return { m with s := ← wStep s }
+    else
+      -- not a model step: the proof of reachability is given up from here on
+      return { m with spurious := m.spurious + 1,
+                      s := ⟨{ s.1 with wpc := .load }, fun h => absurd h (Nat.succ_ne_zero _)⟩ }
   | .hold, .st =>
     if e.a != 0 then throw s!"unlock_root stores {e.a}"
-    seenOk e s
+    seenOk e s.1
     return { m with s := ← wStep s, wtid := none }
   | pc, k => throw s!"writer thread {e.tid} performs {kName k} while the model's writer is at {wpcName pc}"
 
 /-- an access of a reader thread -/
-def readerEv (m : M) (e : Ev) : Except String M := do
+def readerEv {n : Nat} (m : M n) (e : Ev) : Except String (M n) := do
   let t := e.tid
-  let pc := (m.s.readers[t]?).getD .idle
+  let pc := (m.s.1.readers[t]?).getD .idle
   match e.k, pc with
   | .ld, .idle =>
     let s1 ← rStep m.s t false
-    seenOk e s1
+    seenOk e s1.1
     return { m with s := ← rStep s1 t false }
   | .ld, .slow =>
     let s1 ← rStep m.s t true
-    seenOk e s1
+    seenOk e s1.1
     return { m with s := ← rStep s1 t false }
   | .ld, .load =>                      -- after a failed CAS
-    seenOk e m.s
+    seenOk e m.s.1
     return { m with s := ← rStep m.s t false }
   | .y, .decide st =>
     if e.a != st then throw s!"reader {t} announces a CAS from {e.a}, it loaded {st}"
     if e.b != st + READER then throw s!"reader {t} announces a CAS to {e.b}, not {st} + READER"
     let s1 ← rStep m.s t false
-    match (s1.readers[t]?).getD .idle with
+    match (s1.1.readers[t]?).getD .idle with
     | .cas _ =>
-      seenOk e s1
+      seenOk e s1.1
       let s2 ← rStep s1 t false
-      let got := (s2.readers[t]?).getD .idle == .tree
+      let got := (s2.1.readers[t]?).getD .idle == .tree
       return { m with s := s2, rlocks := m.rlocks + (if got then 1 else 0) }
     | _ => return { m with s := s1, slow := m.slow + 1 }
   | .fa, .tree =>
     if e.a != -READER then throw s!"reader {t} releases with fetch_add({e.a})"
     let s1 ← rStep m.s t false
-    seenOk e s1
+    seenOk e s1.1
     return { m with s := ← rStep s1 t false }
   | .wld, .loadWaiter =>
-    if (e.seen != 0) != m.s.waiterSet then throw s!"the last reader finds waiter = {e.seen}, the model has waiterSet = {m.s.waiterSet}"
+    if (e.seen != 0) != m.s.1.waiterSet then throw s!"the last reader finds waiter = {e.seen}, the model has waiterSet = {m.s.1.waiterSet}"
     return { m with s := ← rStep m.s t false }
   | .unpark, .unpark =>
     return { m with s := ← rStep m.s t false, wakes := m.wakes + 1 }
   | k, pc => throw s!"thread {t} performs {kName k} while the model has it at reader pc {rpcName pc}"
 
-def step (m : M) (e : Ev) : Except String M :=
+def step {n : Nat} (m : M n) (e : Ev) : Except String (M n) :=
   let isW := m.wtid == some e.tid
   let startsW := e.k == .cas
   if isW then writerEv m e
   else if startsW then
-    if m.s.wpc != .idle then
-      .error s!"thread {e.tid} enters lock_root while thread {m.wtid} is at {wpcName m.s.wpc}: two writers inside one tree bin (the bin mutex does not serialise them)"
+    if m.s.1.wpc != .idle then
+      .error s!"thread {e.tid} enters lock_root while thread {m.wtid} is at {wpcName m.s.1.wpc}: two writers inside one tree bin (the bin mutex does not serialise them)"
     else writerEv m e
   else match e.k with
     | .st => .error s!"thread {e.tid} stores {e.a} into lock_state without holding the write lock (holder: {m.wtid})"
@@ -173,24 +180,36 @@ def step (m : M) (e : Ev) : Except String M :=
     | .park => .error s!"thread {e.tid} parks without being the waiting writer"
     | _ => readerEv m e
 
-def run (m : M) : List Ev → Nat → Except (Nat × String) M
+def run {n : Nat} (m : M n) : List Ev → Nat → Except (Nat × String) (M n)
   | [], _ => .ok m
   | e :: es, i =>
     match step m e with
     | .ok m' => run m' es (i + 1)
     | .error msg => .error (i, msg)
 
+def start (n : Nat) : M n := { s := ⟨init n, fun _ => .init⟩ }
+
+/-- **Soundness of acceptance.** Whatever stream was replayed, the state the monitor holds is a
+reachable state of `Proto/RwLock` with `n` readers (so every theorem of `Props/C11.lean` /
+`Props/C12.lean` applies to it), provided no spurious wake-up was replayed. The proof is carried
+by the monitor's state itself: every update of `M.s` is a `stepWriter` / `stepReader` of the
+model. -/
+theorem accepted_is_reachable {n : Nat} (evs : List Ev) (m : M n)
+    (_ : run (start n) evs 0 = .ok m) (hs : m.spurious = 0) : Reachable n m.s.1 :=
+  m.s.2 hs
+
 def quietR : RPc → Bool
   | .idle | .slow => true
   | _ => false
 
-def finalCheck (m : M) : Except String Unit := do
-  if !(m.s.wpc == .idle || m.s.wpc == .hold) then throw s!"at quiescence the writer is at {wpcName m.s.wpc}"
-  if !m.s.readers.all quietR then throw s!"at quiescence a reader is still inside find ({m.s.readers.map rpcName})"
-  if !(m.s.lockState == 0 || m.s.lockState == WRITER) then throw s!"at quiescence lock_state = {m.s.lockState}"
+def finalCheck {n : Nat} (m : M n) : Except String Unit := do
+  let s := m.s.1
+  if !(s.wpc == .idle || s.wpc == .hold) then throw s!"at quiescence the writer is at {wpcName s.wpc}"
+  if !s.readers.all quietR then throw s!"at quiescence a reader is still inside find ({s.readers.map rpcName})"
+  if !(s.lockState == 0 || s.lockState == WRITER) then throw s!"at quiescence lock_state = {s.lockState}"
 
 def accept (nthreads : Nat) (quiescent : Bool) (evs : List Ev) : String :=
-  match run { s := init nthreads } evs 0 with
+  match run (start nthreads) evs 0 with
   | .error (i, msg) => s!"bad@{i}: {msg}"
   | .ok m =>
     let tail := s!"wlocks={m.wlocks} waits={m.waits} rlocks={m.rlocks} slow={m.slow} wakes={m.wakes} spurious={m.spurious}"
